@@ -396,6 +396,7 @@ def step (line : String) : String :=
     (match parseTab tab with
     | some l => okOrPanic ((Dyn.npnCanonization l).map (fun r => s!"{showTab r.1} {showNats r.2.1.toList} {r.2.2}"))
     | _ => "bad-op")
+  | ["npnorbit", _, _, _] => "unmodelled"
   | ["canonseq", n] =>
     (match n.toNat? with
     | some n => (match swapsFor n, flipsFor n with
